@@ -769,7 +769,7 @@ func ImportType(memoryGauge common.MemoryGauge, t cadence.Type) interpreter.Stat
 		for _, typ := range t.Types {
 			intf, ok := typ.(cadence.InterfaceType)
 			if !ok {
-				panic(fmt.Sprintf("cannot export type of type %T", t))
+				panic(errors.NewDefaultUserError("cannot import intersection type with non-interface type %T", typ))
 			}
 			types = append(types, importInterfaceType(memoryGauge, intf))
 		}
@@ -790,6 +790,8 @@ func ImportType(memoryGauge common.MemoryGauge, t cadence.Type) interpreter.Stat
 		)
 
 	default:
-		panic(fmt.Sprintf("cannot import type of type %T", t))
+		// The type is provided by the user, e.g. as an argument,
+		// so this is a user error, not an internal error
+		panic(errors.NewDefaultUserError("cannot import type of type %T", t))
 	}
 }
